@@ -72,7 +72,7 @@ def evaluate(v: Variant, root: str) -> dict:
         checks.REGISTRY[v.prop](scratch, prog)
     except Exception as e:  # noqa: BLE001
         return {"variant": v.name, "expected": v.expect, "got": f"crashed: {type(e).__name__}: {e}", "ok": False}
-    viols = scratch.violations()
+    viols = scratch.new_violations()  # a finding that is recorded as open on the tree as it stands is not the variant's doing
     if v.expect == "missed":
         # a breaking variant that is known to be outside the reach of the rule (documented blind spot): recorded, never required
         got = "; ".join(f"{o.rule}@{o.construct}" for o in viols[:3]) or "no violation (UNDECIDED or invisible, as documented)"
